@@ -22,6 +22,9 @@ def cases(seed, tier):
     for i, c in enumerate(cs):
         if i % 2 == 0:
             c["force"] = sorted(set((c["force"] or []) + ["stoch"]))
+        if i % 3 == 2:
+            c["starved"] = True
+            c["force"] = sorted(set((c["force"] or []) + ["constraint"]))
         if i % 6 == 1:
             # one state is called `value` - like the frame column that holds the value function; the *state* columns must
             # still report the states (this check reads nothing else from such a frame)
